@@ -421,3 +421,47 @@ Proof.
     apply N.leb_le in H1, H2. split; assumption.
   - rewrite map_map. reflexivity.
 Qed.
+
+(* ---------- minimum and maximum are read back exactly ---------- *)
+Lemma fmin_pick a b : fmin a b = a \/ fmin a b = b.
+Proof. unfold fmin. destruct (fcmp a b) as [[| |]|]; auto. destruct a; auto. Qed.
+Lemma fmax_pick a b : fmax a b = a \/ fmax a b = b.
+Proof. unfold fmax. destruct (fcmp a b) as [[| |]|]; auto. destruct a; auto. Qed.
+Lemma fold_pick (f : fl -> fl -> fl) : (forall a b, f a b = a \/ f a b = b) -> forall (cs : list piece) x,
+  fold_left (fun m p => f m (p_val p)) cs x = x \/ In (fold_left (fun m p => f m (p_val p)) cs x) (map p_val cs).
+Proof.
+  intros Hf. induction cs as [|p cs IH]; intros x; [now left|]. cbn [fold_left map].
+  destruct (IH (f x (p_val p))) as [E|Hin]; [|right; now right].
+  rewrite E. destruct (Hf x (p_val p)) as [-> | ->]; [now left|right; now left].
+Qed.
+
+(* the minimum and the maximum of a record are the values of stored values, hence f32 values: the
+   reader returns them unchanged (IEEE and exact arithmetic) *)
+Theorem zoom_minmax_read fp ips size chrom len vals st : fp = ieee \/ fp = exact ->
+  1 <= size -> wf_vals len vals -> Forall (fun v => v_bits v < U32) vals ->
+  zoom_chrom fp ips size chrom vals zstate0 = Ok st ->
+  Forall (fun r => su_min (z_sum (zrec_read fp r)) = su_min (z_sum r)
+                   /\ su_max (z_sum (zrec_read fp r)) = su_max (z_sum r)
+                   /\ exists v w, In v vals /\ In w vals /\ su_min (z_sum r) = v_val v /\ su_max (z_sum r) = v_val w)
+         (concat (zs_out st)).
+Proof.
+  intros Hfp Hs Hwf Hbits Hrun. pose proof (zoom_stats fp ips size chrom len vals st Hs Hwf Hrun) as Hst.
+  eapply Forall_impl; [|exact Hst]. cbv beta zeta. intros r [_ Hso]. unfold stats_of in Hso.
+  destruct (contribs (z_start r) (z_end r) vals) as [|p0 ps] eqn:Ec; [contradiction|].
+  destruct Hso as (_ & _ & Hmin & Hmax & _).
+  assert (Hval : forall x, In x (map p_val (p0 :: ps)) -> exists v, In v vals /\ x = v_val v).
+  { intros x Hx. apply in_map_iff in Hx as [p [<- Hp]]. rewrite <- Ec in Hp. apply contribs_spec in Hp as [v [Hv [-> _]]].
+    exists v. split; [exact Hv|reflexivity]. }
+  assert (Hmn : exists v, In v vals /\ su_min (z_sum r) = v_val v).
+  { rewrite Hmin. destruct (fold_pick fmin fmin_pick (p0 :: ps) (p_val p0)) as [E|Hin].
+    - rewrite E. apply Hval. now left.
+    - apply Hval. exact Hin. }
+  assert (Hmx : exists v, In v vals /\ su_max (z_sum r) = v_val v).
+  { rewrite Hmax. destruct (fold_pick fmax fmax_pick (p0 :: ps) (p_val p0)) as [E|Hin].
+    - rewrite E. apply Hval. now left.
+    - apply Hval. exact Hin. }
+  destruct Hmn as [v [Hv Ev]]. destruct Hmx as [w [Hw Ew]]. rewrite Forall_forall in Hbits.
+  cbn [zrec_read z_sum su_min su_max]. rewrite Ev, Ew. unfold v_val.
+  rewrite !(stat_read_f32 fp _ Hfp) by (apply Hbits; assumption).
+  split; [reflexivity|]. split; [reflexivity|]. exists v, w. repeat split; assumption.
+Qed.
